@@ -23,7 +23,12 @@ def main():
     scratch = tempfile.mkdtemp(prefix="lokysa_seeded_")
     res = {}
     try:
-        subprocess.run(["git", "-C", REPO, "apply", patch], check=True)
+        # a seed made against an older commit of /repo may need reduced context (the fix: commits moved lines)
+        for extra in ([], ["-C1"]):
+            if subprocess.run(["git", "-C", REPO, "apply"] + extra + [patch], capture_output=True).returncode == 0:
+                break
+        else:
+            raise SystemExit(f"patch does not apply to /repo: {patch}")
         env = dict(os.environ, LOKYSA_EVIDENCE_DIR=scratch)
         man = json.load(open(os.path.join(VERIF, "MANIFEST.json")))
         for c in man["checks"]:
